@@ -193,7 +193,7 @@ func (ip *Interp) registerIntrinsics() {
 	bytesOf := func(v Value) []*Term {
 		switch v := v.(type) {
 		case Str:
-			return v.B
+			return ip.concStr(v).B
 		case Slice:
 			v = ip.concSlice(v, "byte search")
 			out := make([]*Term, v.Len)
